@@ -32,6 +32,18 @@ class BinSet:
     def __bool__(self):
         return True
 
+    def isdisjoint(self, other):
+        for x in other:
+            if x in self:
+                return False
+        return True
+
+    def intersection(self, other):
+        return {x for x in other if x in self}
+
+    __and__ = intersection
+    __rand__ = intersection
+
     def __contains__(self, tok):
         if not isinstance(tok, BinTok):
             return False
@@ -49,3 +61,61 @@ def bins_contract(start, stop, fmt="gff", one=True):
     if one:
         return BinTok(start, stop)
     return BinSet(start, stop)
+
+
+# ---------------------------------------------------------------------------------------------------------------------
+# "smt" mode: the EXACT semantics of the real bins(), as z3 integer terms generated from /repo's current source by
+# vlib.src2smt.BinsEncoder (the encoding C16 validates and decides). Bin numbers stay symbolic, so position queries are
+# explored against the real binning scheme for ALL integer coordinates, and every counterexample replays with the real bins().
+_ENC = []
+
+
+def _encoder():
+    if not _ENC:
+        from vlib.src2smt import BinsEncoder
+
+        _ENC.append(BinsEncoder())
+    return _ENC[0]
+
+
+class SmtBinSet:
+    def __init__(self, zs, ze, fmt):
+        self.zs, self.ze, self.fmt = zs, ze, fmt
+
+    def __bool__(self):
+        return True
+
+    def __contains__(self, b):
+        from crosshair.libimpl.builtinslib import SymbolicBool
+        from crosshair.tracers import NoTracing
+
+        from vlib.sym import _zi
+
+        with NoTracing():
+            term = SymbolicBool(_encoder().inbins(_zi(b), self.zs, self.ze, self.fmt))
+        return bool(term)
+
+    def isdisjoint(self, other):
+        for x in other:
+            if x in self:
+                return False
+        return True
+
+    def intersection(self, other):
+        return {x for x in other if x in self}
+
+    __and__ = intersection
+    __rand__ = intersection
+
+
+def bins_smt(start, stop, fmt="gff", one=True):
+    from crosshair.libimpl.builtinslib import SymbolicInt
+    from crosshair.tracers import NoTracing
+
+    from vlib.sym import _zi
+
+    with NoTracing():
+        zs, ze = _zi(start), _zi(stop)
+        if one:
+            return SymbolicInt(_encoder().bin1(zs, ze, fmt))
+        return SmtBinSet(zs, ze, fmt)
